@@ -599,3 +599,19 @@ Proof.
 Qed.
 
 End S.
+
+(* ---------- commands take effect in the order they were issued ---------- *)
+Lemma final_paused_pause_last p q : final_paused p (q ++ [IPause]) = true.
+Proof. revert p; induction q as [|i q IH]; intros p; cbn; [reflexivity|apply IH]. Qed.
+
+Lemma commands_in_order (L : Z) fuel st st' ys' :
+  handle_waker L fuel st [] = (st', ys') -> ~ In IStop (wq st) -> err st' = None ->
+  paused st' = final_paused (paused st) (wq st) /\ wq st' = [].
+Proof.
+  intros H Hns He. destruct (handle_waker_q L _ _ _ _ H Hns) as (_ & _ & _ & _ & Hq).
+  destruct (Hq He) as (A & _ & B & _). auto.
+Qed.
+
+Lemma last_command_wins p q :
+  final_paused p (q ++ [IPause]) = true /\ final_paused p (q ++ [IResume]) = false.
+Proof. split; [apply final_paused_pause_last|apply final_paused_resume_last]. Qed.
